@@ -141,7 +141,7 @@ def run_one(case):
     with warnings.catch_warnings():
         warnings.simplefilter("ignore")
         try:
-            at_ = (sum(case["rs"]) // 5) % 6
+            at_ = (sum(case["rs"]) // 5) % 8
             W = sp.linop.Wavelet(vary_seq(shape, at_), axes=vary_seq(axes, at_), wave_name=name,
                                  level=level)
             with structured((sum(case["rs"]) // 3) % 10 if sum(case["rs"]) % 2 else 0):
